@@ -15,12 +15,17 @@ META = {
              'by the Coq-proved wf_commit monitor judging every recorded flush write log; a BTreeMap<u64,BTreeSet<u64>> '
              'oracle and a load of every crash prefix search for failing inputs on the implementation.'),
     'design_ref': 'DESIGN.md section 4 / C10',
-    'note': ('Partial: the concurrency half (gate_protects_compaction, schedule exploration through verif_point! hooks) '
-             'is not built; DashMap/lock interleavings are not modelled. Hash-map iteration order (insert_array phase 2/3, '
-             'compact_buckets) is abstracted to list order, so bucket placement is compared only on histories without '
-             'multi-value batch operations or compaction. CBOR sizes are modelled exactly for unsigned keys/ids.'),
-    'technique': 'Coq proof (invariants, refinement, structural induction on query trees, generic commit-point atomicity) '
-                 '+ differential model/impl run + certified monitor on flush write logs',
+    'note': ('Concurrency: a small-step Coq model (entry accesses, btree lock and gate as atomic steps) is proved linearizable '
+             'for any number of threads, with gate exclusion for compaction; a hook-free schedule explorer (key type whose Hash '
+             'is a yield point) runs every single-preemption and sampled double-preemption schedule of 2 (thorough: 3) threads on '
+             'the real index and compares with sequential orders of the multimap. Not proved: key-set/postings consistency at '
+             'quiescence in the concurrent model (explored), the concurrent array calls (explored at pair granularity), '
+             'insert_array/remove_array/batch_update refinement and the flush/load round trip (compared on every run, incl. '
+             'dirty-tracking probes). Hash-map iteration order is abstracted to list order, so bucket placement is compared only '
+             'on histories without multi-value batch operations, compaction or reload. CBOR sizes are exact for unsigned keys/ids.'),
+    'technique': 'Coq proof (invariants, refinement, structural induction on query trees, generic commit-point atomicity, '
+                 'linearization points of a small-step concurrent model) + differential model/impl run + certified monitor on '
+                 'flush write logs + deterministic schedule explorer',
 }
 
 IMPORTS = 'From Verif Require Import Common.ObjStore Common.CommitPoint BTree.Model BTree.Run.'
@@ -30,6 +35,8 @@ def classify(what):
     w = what.lower()
     if 'stale copy' in w:
         return 'stale-copy'
+    if 'concurrent mutations' in w or 'schedule explorer' in w:
+        return 'lost-update'
     if 'crash' in w or 'failed flush' in w or 'round trip' in w or 'legacy' in w or 'reload' in w:
         return 'crash-atomicity'
     if 'range query' in w or 'keys(' in w or 'point query' in w:
@@ -46,20 +53,24 @@ def run(ck):
                'remove_array, batch_update, compact, flush (every prefix of its write log loaded), flush with an injected '
                'write failure, crash after k backend steps + reload, range queries (trees to depth 3, both directions, stop '
                'after 1..8 keys, empty groups), keys paging, point queries, stats; legacy manifest-less layouts with stale '
-               'duplicates and tombstones. non-trivial = a distinct model-compared history with >= 8 operations, or a '
+               'duplicates and tombstones; dirty-tracking probes (clean state, ONE mutation of each kind, flush, reload); schedule explorer: '
+               '2 threads (3 in thorough) doing insert/remove/insert_array/remove_array/compact on overlapping keys, every single '
+               'preemption point (key-hash yield points) and a sample of double preemptions. non-trivial = a distinct model-compared history with >= 8 operations, or a '
                'distinct flush log with >= 2 steps')
     ck.translate()
     ck.coq(['BTree/Props.v'], ['BTree', 'Common'], model_targets=['BTree/Run.vo'])
     ck.trust('std BTreeSet::range / iteration order and DashMap single-threaded map semantics (modelled as a sorted list / assoc list)')
-    ck.assume('operations run sequentially (the concurrent half of C10 is not covered by this check)',
+    ck.assume('concurrency: the model takes every DashMap entry access / btree lock / gate acquisition as one atomic step; '
+              'memory ordering and shard-lock internals are not modelled',
               'hash-map iteration order is irrelevant to everything but bucket placement',
               'the caller deletes FlushOutcome::obsolete after a successful flush, as anda_db index/btree.rs does',
               'u64 keys and ids (CBOR size model)')
     binary = ck.cargo('h_btree')
     if binary:
         out = ck.work + '/c10.jsonl'
-        args = ['--out', out] + (['--seqs', '80', '--max-ops', '45', '--model-every', '1', '--legacy', '6'] if quick
-                                 else ['--seqs', '4000', '--max-ops', '120', '--model-every', '4', '--legacy', '60'])
+        args = ['--out', out] + (['--seqs', '80', '--max-ops', '45', '--model-every', '1', '--legacy', '6', '--probes', '54', '--sched-random', '40', '--sched-deep-every', '6'] if quick
+                                 else ['--seqs', '3000', '--max-ops', '100', '--model-every', '6', '--legacy', '60', '--probes', '540', '--sched-random', '400',
+                                       '--sched-deep-every', '1', '--sched-three', '60'])
         rc, text = ck.run_harness(binary, args, timeout=3000)
         ok = ck.ob('harness h_btree ran', rc == 0 and os.path.exists(out), 'correspondence', text[-2000:])
         if ok:
@@ -68,7 +79,8 @@ def run(ck):
             ck.count(summary['evaluations'])
             ck.cov['input_distribution'] = {k: summary[k] for k in (
                 'histories', 'op_histogram', 'history_lengths', 'flushes', 'flushes_with_2plus_dirty_buckets',
-                'crash_points', 'stats_with_migration', 'unique_rejections', 'early_stopped_queries', 'legacy_loads')}
+                'crash_points', 'stats_with_migration', 'unique_rejections', 'early_stopped_queries', 'legacy_loads',
+                'dirty_tracking_probes', 'schedule_explorer')}
             for f in summary['failures']:
                 ck.violation(classify(f['what']), f['what'], True, {'failing_input': f})
             ck.ob('implementation = BTreeMap<u64,BTreeSet<u64>> oracle on every operation, query, flush round trip and '
@@ -116,4 +128,17 @@ def run(ck):
             ck.ob('model loader = load_all on %d captured object maps (crash prefixes, legacy layouts)' % len(loads),
                   not badd, 'correspondence', json.dumps(loads[badd[0]]['case'])[:3000] if badd else '')
             ck.count(len(loads))
+
+            # ---- C: schedule explorer outcomes (single-pair calls) = some sequential order of the model
+            conc = [r for r in rows if r['kind'] == 'conc']
+            res = ck.eval_cases(IMPORTS, 'conc_case', 'check_conc', [r['case'] for r in conc], shard=120, timeout=1500, label='conc')
+            badc = [i for i, r in enumerate(res) if r is not True]
+            for r in conc:
+                ck.nontrivial(('conc', json.dumps(r['case'])))
+            se = summary.get('schedule_explorer') or {}
+            ck.ob('schedule explorer: %d scenarios, %d schedules on the implementation; every distinct outcome (%d) is some '
+                  'sequential order of the model' % (se.get('scenarios', 0), se.get('schedules', 0), len(conc)),
+                  not badc and se.get('schedules', 0) > 0, 'correspondence', json.dumps(conc[badc[0]]['case'])[:3000] if badc else '')
+            if conc:
+                ck.sample({'concurrent_outcome': conc[len(conc) // 2]['case']})
     ck.finish()
